@@ -73,6 +73,26 @@ Definition reserved_free2 (m : Symbols.mgr) : Prop :=
 Lemma asm_not_pc n : known_asm_builtin n = true -> is_pc n = false.
 Proof. exact (asm_name_not_addr n). Qed.
 
+(* ---------- item references are used once ---------- *)
+Lemma flat_map_nodup_inj {A} (f : A -> list nat) (l : list A) : NoDup (flat_map f l) ->
+  forall a b k, In a l -> In b l -> In k (f a) -> In k (f b) -> a = b.
+Proof.
+  induction l as [|x l IH]; intros Hnd a b k Ha Hb Hka Hkb; [destruct Ha|]. cbn [flat_map] in Hnd.
+  assert (Hin : forall y, In y l -> In k (f y) -> In k (flat_map f l)) by (intros y Hy Hk; apply in_flat_map; eauto).
+  destruct Ha as [->|Ha], Hb as [Hb|Hb].
+  - exact Hb.
+  - exfalso. eapply NoDup_app_disj; [exact Hnd|exact Hka|eauto].
+  - subst x. exfalso. eapply NoDup_app_disj; [exact Hnd|exact Hkb|eauto].
+  - eapply IH; eauto. eapply NoDup_app_r; eauto.
+Qed.
+
+Definition sref (n : cnode) : list nat := match fst n with XLabel s _ => [s] | XConst s _ _ => [s] | _ => [] end.
+Definition iref (n : cnode) : list nat := match fst n with XInstr i _ => [i] | _ => [] end.
+Definition dref (n : cnode) : list nat := match fst n with XData _ d _ => [d] | _ => [] end.
+(* the node list is numbered the way Resolver2.build_nodes numbers it: every item reference is used by one node *)
+Definition canonical2 (ns : list cnode) : Prop :=
+  NoDup (flat_map sref ns) /\ NoDup (flat_map iref ns) /\ NoDup (flat_map dref ns).
+
 Section Sim2.
 Variable m : Symbols.mgr.
 Variable banks : list Cursor.bank.
@@ -189,5 +209,279 @@ Proof.
   rewrite Hchk. cbn [negb]. fold (sliced w b0).
   rewrite (nth_error_nth' (s_data st') d (mk 0 (Some 0%N)) _ Hnth). rewrite bigint_identical_refl.
   rewrite (set_nth_same_entry _ _ _ Hnth). rewrite state_eta. reflexivity.
+Qed.
+(* ---------- the invariant ---------- *)
+Variable opt : bool.
+(* every statically known data element passes the checks of its directive *)
+Hypothesis Hok : forall w d e c, In (XData w d e, c) ns -> data_known e = true -> elem_strict_ok w e = true.
+Hypothesis HKdata : forall w d e c, In (XData w d e, c) ns -> flag (k_data K) d = true -> data_known e = true.
+Hypothesis Hcan : opt = true -> canonical2 ns.
+
+Definition Inv2 (x : sstate) : Prop :=
+  (opt = true -> good2 (ss x) /\ kinstr_ok2 (ss x)) /\
+  (forall i, flag (fz_instr x) i = true -> opt = true /\ exists d, nth_error (s_instr (ss x)) i = Some d /\
+       forall src c, In (XInstr i src, c) ns -> frozen_instr_ok2 i d c) /\
+  (forall d, flag (fz_data x) d = true -> exists bb, nth_error (s_data (ss x)) d = Some bb /\
+       forall w e c, In (XData w d e, c) ns -> frozen_data_ok2 d w e bb) /\
+  (forall s, flag (fz_sym x) s = true -> opt = true /\ exists d0 e c, In (XConst s d0 e, c) ns /\ const_known e = true) /\
+  lens x.
+
+Lemma good2_same st st' : s_sym st' = s_sym st -> good2 st -> good2 st'.
+Proof. intros E Hg s d0 e c Hin Hk. rewrite E. exact (Hg s d0 e c Hin Hk). Qed.
+Lemma kinstr2_same st st' : s_instr st' = s_instr st -> kinstr_ok2 st -> kinstr_ok2 st'.
+Proof. intros E Hk i src c d Hin Hd. rewrite E in Hd. exact (Hk i src c d Hin Hd). Qed.
+
+Lemma const_unique2 s d0 e c d0' e' c' : NoDup (flat_map sref ns) ->
+  In (XConst s d0 e, c) ns -> In (XConst s d0' e', c') ns -> e = e'.
+Proof.
+  intros Hnd H1 H2.
+  assert (E : (XConst s d0 e, c) = (XConst s d0' e', c')) by (eapply (flat_map_nodup_inj sref ns Hnd _ _ s); eauto; cbn; auto).
+  congruence.
+Qed.
+Lemma label_not_const2 s d0 c d0' e c' : NoDup (flat_map sref ns) -> In (XLabel s d0, c) ns -> In (XConst s d0' e, c') ns -> False.
+Proof.
+  intros Hnd H1 H2.
+  assert (E : (XLabel s d0, c) = (XConst s d0' e, c')) by (eapply (flat_map_nodup_inj sref ns Hnd _ _ s); eauto; cbn; auto).
+  discriminate.
+Qed.
+
+Variable last : bool.
+Notation NF2 n c st b pos := (resolve_node2 m defs mb last n c st b pos).
+
+Definition plain2 (n : xnode) : Prop := match n with XInstr _ _ | XData _ _ _ => False | _ => True end.
+
+Lemma plain_keeps2 n c st b pos st' r : plain2 n -> NF2 n c st b pos = Ok (st', r) ->
+  s_instr st' = s_instr st /\ s_data st' = s_data st /\ length (s_sym st') = length (s_sym st).
+Proof.
+  intros Hp H. unfold resolve_node2 in H. cbv zeta in H.
+  destruct n as [s d0|s d0 e|i src|width d e|k e|k e|k e|bi|e]; try destruct Hp;
+    repeat match type of H with
+           | Ok _ = Ok _ => inversion H; subst; clear H; cbn [s_sym s_instr s_data]; rewrite ?set_nth_length; auto
+           | match ?q with _ => _ end = _ => destruct q; try discriminate H
+           | (if ?q then _ else _) = _ => destruct q; try discriminate H
+           | (let _ := _ in _) = _ => cbv zeta in H
+           end.
+Qed.
+
+Lemma good_step2 n c st b pos st' r : NoDup (flat_map sref ns) -> good2 st -> In (n, c) ns ->
+  NF2 n c st b pos = Ok (st', r) -> good2 st'.
+Proof.
+  intros Hnd Hg Hin H.
+  destruct n as [s d0|s d0 e|i src|width d e|k e|k e|k e|bi|e].
+  - unfold resolve_node2 in H. cbv zeta in H.
+    destruct (Cursor.eval_address mb b pos (negb last)) as [a| |]; try discriminate.
+    inversion H; subst; clear H. intros s0 d1 e0 c0 Hin0 Hk0. cbn [s_sym].
+    assert (s0 <> s) by (intro; subst; eapply label_not_const2; eauto).
+    rewrite nth_error_set_nth_other by assumption. exact (Hg s0 d1 e0 c0 Hin0 Hk0).
+  - unfold resolve_node2 in H. cbv zeta in H.
+    destruct (eval code_ops _ e []) as [[v c1]|] eqn:E; [|discriminate].
+    match type of H with (if ?q then _ else _) = _ => destruct q; [discriminate|] end.
+    inversion H; subst; clear H. intros s0 d1 e0 c0 Hin0 Hk0. cbn [s_sym].
+    destruct (Hg s0 d1 e0 c0 Hin0 Hk0) as (v0 & c2 & Hv & Hs & Hp).
+    destruct (Nat.eq_dec s0 s) as [->|Hne].
+    + assert (e0 = e) by (eapply const_unique2; eauto). subst e0.
+      rewrite (closed_known_indep _ dummy_var e [] (asm_agree_pvar2_dummy _ _ _ _) Hk0) in E. unfold cval in Hv. rewrite Hv in E.
+      inversion E; subst. exists v, c1. split; [exact Hv|]. split; [exact (nth_error_set_nth_same _ _ _ _ Hs)|exact Hp].
+    + rewrite nth_error_set_nth_other by assumption. exists v0, c2. auto.
+  - unfold resolve_node2 in H. cbv zeta in H. destruct (nth_error (s_instr st) i) as [d|]; [|discriminate].
+    destruct (resolve_encoding defs _ _ (i_matches d)) as [chosen|]; [|discriminate].
+    inversion H; subst. eapply good2_same; [|exact Hg]. reflexivity.
+  - unfold resolve_node2 in H. cbv zeta in H.
+    destruct (eval code_ops _ e []) as [[v c1]|]; [|discriminate].
+    destruct (expect_error_or_bigint v) as [v'|]; [|discriminate].
+    match type of H with match ?q with _ => _ end = _ => destruct q as [menc|]; [|discriminate] end.
+    match type of H with (if negb ?q then _ else _) = _ => destruct q; cbn [negb] in H; [|discriminate] end.
+    inversion H; subst. eapply good2_same; [|exact Hg]. destruct menc; reflexivity.
+  - unfold resolve_node2 in H. cbv zeta in H.
+    repeat match type of H with
+           | Ok _ = Ok _ => inversion H; subst; clear H; eapply good2_same; [|exact Hg]; reflexivity
+           | match ?q with _ => _ end = _ => destruct q; try discriminate H
+           | (if ?q then _ else _) = _ => destruct q; try discriminate H
+           end.
+  - unfold resolve_node2 in H. cbv zeta in H.
+    repeat match type of H with
+           | Ok _ = Ok _ => inversion H; subst; clear H; eapply good2_same; [|exact Hg]; reflexivity
+           | match ?q with _ => _ end = _ => destruct q; try discriminate H
+           | (if ?q then _ else _) = _ => destruct q; try discriminate H
+           end.
+  - unfold resolve_node2 in H. cbv zeta in H.
+    repeat match type of H with
+           | Ok _ = Ok _ => inversion H; subst; clear H; eapply good2_same; [|exact Hg]; reflexivity
+           | match ?q with _ => _ end = _ => destruct q; try discriminate H
+           | (if ?q then _ else _) = _ => destruct q; try discriminate H
+           end.
+  - cbn in H. inversion H; subst. exact Hg.
+  - unfold resolve_node2 in H. cbv zeta in H.
+    repeat match type of H with
+           | Ok _ = Ok _ => inversion H; subst; clear H; exact Hg
+           | match ?q with _ => _ end = _ => destruct q; try discriminate H
+           | (if ?q then _ else _) = _ => destruct q; try discriminate H
+           end.
+Qed.
+(* ---------- one node ---------- *)
+Variable first : bool.
+Notation NS2 n c x b pos := (resolve_nodeS2 m defs mb K opt first last n c x b pos).
+
+Definition npost2 (x : sstate) (st' : state) (rF : resolution) (x' : sstate) (rT : resolution) : Prop :=
+  ss x' = st' /\ le_res rF rT /\ (opt && first = false -> same_flags x x' /\ rT = rF) /\ Inv2 x' /\ sub_flags x x'.
+
+Lemma inv2_plain n c x b pos st' r : plain2 n -> In (n, c) ns -> Inv2 x -> NF2 n c (ss x) b pos = Ok (st', r) -> Inv2 (with_state x st').
+Proof.
+  intros Hp Hin (I1 & I2 & I3 & I4 & I5) H. destruct (plain_keeps2 _ _ _ _ _ _ _ Hp H) as (Ei & Ed & El).
+  unfold Inv2, lens. cbn [ss with_state fz_sym fz_instr fz_data]. rewrite Ei, Ed, El.
+  split; [|split; [|split; [|split]]]; auto.
+  intro Ho. destruct (I1 Ho) as [Hg Hk]. split.
+  - eapply good_step2; [exact (proj1 (Hcan Ho))|exact Hg|exact Hin|exact H].
+  - eapply kinstr2_same; eauto.
+Qed.
+
+Lemma npost2_same x st' r : Inv2 (with_state x st') -> npost2 x st' r (with_state x st') r.
+Proof.
+  intro HI. unfold npost2. split; [reflexivity|]. split; [apply le_res_refl|]. split; [intros _; split; [apply same_flags_ws|reflexivity]|].
+  split; [exact HI|apply sub_flags_ws].
+Qed.
+Lemma npost2_skip x : Inv2 x -> npost2 x (ss x) Resolved x Resolved.
+Proof.
+  intro HI. unfold npost2. split; [reflexivity|]. split; [apply le_res_refl|]. split; [intros _; split; [apply same_flags_refl|reflexivity]|].
+  split; [exact HI|apply sub_flags_refl].
+Qed.
+
+Lemma kinstr2_upd st i d d' : kinstr_ok2 st -> nth_error (s_instr st) i = Some d -> i_matches d' = i_matches d -> kinstr_ok2 (upd_instr st i d').
+Proof.
+  intros Hk Hd Hm j src c dj Hin Hj Fj. cbn [upd_instr s_instr] in Hj. destruct (Nat.eq_dec j i) as [->|Hne].
+  - rewrite (nth_error_set_nth_same _ _ _ _ Hd) in Hj. inversion Hj; subst dj. rewrite Hm. exact (Hk i src c d Hin Hd Fj).
+  - rewrite nth_error_set_nth_other in Hj by exact Hne. exact (Hk j src c dj Hin Hj Fj).
+Qed.
+
+Lemma node_sim2 n c x b pos : In (n, c) ns -> Inv2 x ->
+  match NF2 n c (ss x) b pos with
+  | Ok (st', rF) => exists x' rT, NS2 n c x b pos = Ok (x', rT) /\ npost2 x st' rF x' rT
+  | Err => NS2 n c x b pos = Err
+  | Panic => NS2 n c x b pos = Panic
+  end.
+Proof.
+  intros Hin HI.
+  assert (Plain : plain2 n ->
+    NS2 n c x b pos = match NF2 n c (ss x) b pos with Err => Err | Panic => Panic | Ok (st', res) => Ok (with_state x st', res) end ->
+    match NF2 n c (ss x) b pos with
+    | Ok (st', rF) => exists x' rT, NS2 n c x b pos = Ok (x', rT) /\ npost2 x st' rF x' rT
+    | Err => NS2 n c x b pos = Err
+    | Panic => NS2 n c x b pos = Panic
+    end).
+  { intros Hp E. rewrite E. destruct (NF2 n c (ss x) b pos) as [[st' r]| |] eqn:F; try reflexivity.
+    exists (with_state x st'), r. split; [reflexivity|]. apply npost2_same. eapply inv2_plain; eauto. }
+  pose proof HI as (I1 & I2 & I3 & I4 & L1 & L2 & L3).
+  destruct n as [s d0|s d0 e|i src|width d e|k e|k e|k e|bi|e]; try (apply Plain; [exact I|reflexivity]).
+  - (* constant *)
+    cbn [resolve_nodeS2]. destruct (flag (fz_sym x) s) eqn:Fs.
+    + destruct (I4 s Fs) as (Ho & d0' & e' & c' & Hin' & Hk').
+      assert (e' = e) by (eapply const_unique2; [exact (proj1 (Hcan Ho))|exact Hin'|exact Hin]). subst e'.
+      rewrite (const_noop2 (ss x) b pos last s d0 e c (proj1 (I1 Ho)) Hin Hk').
+      exists x, Resolved. split; [reflexivity|]. apply npost2_skip. exact HI.
+    + destruct (NF2 (XConst s d0 e) c (ss x) b pos) as [[st' r]| |] eqn:F; try reflexivity.
+      assert (HI' : Inv2 (with_state x st')) by (eapply inv2_plain; eauto; exact I).
+      destruct (opt && first && flag (k_sym K) s) eqn:C.
+      * apply andb_prop in C. destruct C as [C Ck]. pose proof C as Cof. apply andb_prop in C. destruct C as [Ho Hf].
+        eexists. exists Resolved. split; [reflexivity|]. unfold npost2. cbn [ss]. split; [reflexivity|]. split; [intros _; reflexivity|].
+        split; [intro Hc; rewrite Cof in Hc; discriminate Hc|]. split.
+        -- destruct HI' as (J1 & J2 & J3 & J4 & J5). unfold Inv2, lens in *. cbn [ss with_state fz_sym fz_instr fz_data] in *.
+           rewrite set_nth_length. split; [exact J1|]. split; [exact J2|]. split; [exact J3|]. split; [|exact J5].
+           intros s0 F0. destruct (flag_true_set _ _ _ F0) as [->|Fq]; [|exact (J4 s0 Fq)]. split; [exact Ho|].
+           apply HKsym. unfold flag in Ck. destruct (nth_error (k_sym K) s) as [bb|]; [subst bb; reflexivity|discriminate].
+        -- repeat split; cbn [fz_sym fz_instr fz_data]; auto. intros j Hj. apply flag_set_mono. exact Hj.
+      * exists (with_state x st'), r. split; [reflexivity|]. apply npost2_same. exact HI'.
+  - (* instruction *)
+    cbn [resolve_nodeS2]. unfold resolve_node2. cbv zeta.
+    destruct (nth_error (s_instr (ss x)) i) as [d|] eqn:Hd; cbv beta iota; [|reflexivity].
+    destruct (flag (fz_instr x) i) eqn:Fi.
+    + destruct (I2 i Fi) as (Ho & d1 & Hd1 & Hokd). rewrite Hd in Hd1. inversion Hd1; subst d1.
+      pose proof (Hokd src c Hin (ss x) b pos last src (proj1 (I1 Ho)) Hd) as E. unfold resolve_node2 in E. cbv zeta in E. rewrite Hd in E.
+      rewrite E. exists x, Resolved. split; [reflexivity|]. apply npost2_skip. exact HI.
+    + rewrite resolve_encoding_smallest.
+      destruct (smallest_encodings defs _ (negb last) (i_matches d)) as [encs|] eqn:Es; [|reflexivity].
+      set (chosen := match encs with Some cc => hd_error cc | None => None end).
+      assert (Ech : match encs with None => EOk None | Some cc => EOk (hd_error cc) end = EOk chosen) by (destruct encs; reflexivity).
+      rewrite Ech. clear Ech. cbv zeta.
+      set (d' := match chosen with Some bb => {| i_matches := i_matches d; i_enc := bb |} | None => d end).
+      assert (Hm : i_matches d' = i_matches d) by (unfold d'; destruct chosen; reflexivity).
+      fold (upd_instr (ss x) i d').
+      assert (Keep : Inv2 (with_state x (upd_instr (ss x) i d'))).
+      { unfold Inv2, lens. cbn [ss with_state upd_instr fz_sym fz_instr fz_data s_sym s_instr s_data]. rewrite set_nth_length.
+        split; [|split; [|split; [|split]]]; auto.
+        - intro Ho. destruct (I1 Ho) as [Hg Hk]. split; [eapply good2_same; [|exact Hg]; reflexivity|exact (kinstr2_upd _ _ _ _ Hk Hd Hm)].
+        - intros j Fj. destruct (I2 j Fj) as (Ho & dj & Hj & Hokj). split; [exact Ho|]. exists dj. split; [|exact Hokj].
+          rewrite nth_error_set_nth_other; [exact Hj|]. intro; subst; congruence. }
+      match goal with |- context [if ?q then Ok ({| ss := _; fz_sym := _; fz_instr := set_nth _ _ _; fz_data := _ |}, _) else _] => destruct q eqn:Fz end.
+      * destruct chosen as [bb|] eqn:Hch; [|discriminate].
+        apply andb_prop in Fz. destruct Fz as [Fz Hsingle]. apply andb_prop in Fz. destruct Fz as [Cof Ki].
+        pose proof Cof as Cof'. apply andb_prop in Cof. destruct Cof as [Ho Hf].
+        destruct encs as [cc|]; [|discriminate]. apply Nat.eqb_eq in Hsingle.
+        assert (cc = [bb]).
+        { destruct cc as [|b1 [|b2 cc]]; cbn in Hsingle; try discriminate. unfold chosen in Hch. cbn in Hch. congruence. }
+        subst cc. destruct (I1 Ho) as [Hg Hk]. destruct (Hk i src c d Hin Hd Ki) as [Hkn Hkd].
+        eexists. exists Resolved. split; [reflexivity|]. unfold npost2. cbn [ss]. split; [reflexivity|]. split; [intros _; reflexivity|].
+        split; [intro Hc; rewrite Cof' in Hc; discriminate Hc|]. split.
+        -- destruct Keep as (J1 & J2 & J3 & J4 & J5). unfold Inv2, lens in *. cbn [ss with_state upd_instr fz_sym fz_instr fz_data s_sym s_instr s_data] in *.
+           rewrite set_nth_length in *. split; [exact J1|]. split; [|split; [exact J3|split; [exact J4|exact J5]]].
+           intros j Fj. split; [exact Ho|]. destruct (Nat.eq_dec j i) as [->|Hne].
+           ++ exists d'. split; [exact (nth_error_set_nth_same _ _ _ _ Hd)|]. intros src' c' Hin'.
+              assert (E : (XInstr i src', c') = (XInstr i src, c))
+                by (eapply (flat_map_nodup_inj iref ns (proj1 (proj2 (Hcan Ho))) _ _ i); eauto; cbn; auto).
+              inversion E; subst. unfold d'. eapply freeze_instr_ok2; eauto.
+           ++ rewrite flag_set_other in Fj by exact Hne. exact (proj2 (J2 j Fj)).
+        -- repeat split; cbn [fz_sym fz_instr fz_data]; auto. intros j Hj. apply flag_set_mono. exact Hj.
+      * eexists (with_state x (upd_instr (ss x) i d')), _. split; [reflexivity|]. apply npost2_same. exact Keep.
+  - (* data element *)
+    cbn [resolve_nodeS2]. destruct (flag (fz_data x) d) eqn:Fd.
+    + destruct (I3 d Fd) as (bb & Hb & Hall). rewrite (Hall width e c Hin c (ss x) b pos last Hb).
+      exists x, Resolved. split; [reflexivity|]. apply npost2_skip. exact HI.
+    + unfold resolve_node2. cbv zeta.
+      destruct (eval code_ops _ e []) as [[v c1]|] eqn:Ev; [|reflexivity].
+      destruct (expect_error_or_bigint v) as [v'|] eqn:Ex; [|reflexivity].
+      assert (Write : forall bb, Inv2 (with_state x (upd_data (ss x) d bb))).
+      { intro bb. unfold Inv2, lens. cbn [ss with_state upd_data fz_sym fz_instr fz_data s_sym s_instr s_data]. rewrite set_nth_length.
+        split; [exact I1|]. split; [exact I2|]. split; [|split; [exact I4|auto]].
+        intros d1 F1. destruct (I3 d1 F1) as (b1 & Hb1 & Hall1). exists b1. split; [|exact Hall1].
+        rewrite nth_error_set_nth_other; [exact Hb1|]. intro; subst; congruence. }
+      destruct (flag (k_data K) d) eqn:Kd.
+      * pose proof (HKdata width d e c Hin Kd) as Hkn.
+        assert (Hv : exists b0, v' = VInt b0 /\ elem_checked width b0 = true).
+        { pose proof (Hok width d e c Hin Hkn) as Hs. unfold elem_strict_ok in Hs.
+          rewrite <- (closed_known_indep (pvar2 m (ss x) c (Cursor.eval_address mb b pos (negb last)) (negb last)) dummy_var e []
+                        (asm_agree_pvar2_dummy _ _ _ _) Hkn) in Hs. rewrite Ev, Ex in Hs.
+          destruct v'; try discriminate. eauto. }
+        destruct Hv as [b0 [-> Hchk]]. rewrite orb_true_r. unfold elem_checked in Hchk. rewrite Hchk.
+        replace (if last then true else true) with true by (destruct last; reflexivity). cbn [negb].
+        fold (sliced width b0). fold (upd_data (ss x) d (sliced width b0)).
+        destruct (opt && first) eqn:Hof; cbn [andb].
+        -- destruct (bsz (sliced width b0)) eqn:Bs.
+           ++ apply andb_prop in Hof. destruct Hof as [Ho Hf].
+              eexists. exists Resolved. split; [reflexivity|]. unfold npost2. cbn [ss]. split; [reflexivity|]. split; [intros _; reflexivity|].
+              split; [intro Hc; rewrite Ho, Hf in Hc; discriminate Hc|]. split.
+              ** destruct (Write (sliced width b0)) as (J1 & J2 & J3 & J4 & J5). unfold Inv2, lens in *.
+                 cbn [ss with_state upd_data fz_sym fz_instr fz_data s_sym s_instr s_data] in *. rewrite set_nth_length in *.
+                 split; [exact J1|]. split; [exact J2|]. split; [|split; [exact J4|exact J5]].
+                 intros d1 F1. destruct (Nat.eq_dec d1 d) as [->|Hne].
+                 --- assert (Hlt : (d < length (s_data (ss x)))%nat).
+                     { rewrite <- L3. unfold flag in F1. destruct (nth_error (set_nth (fz_data x) d true) d) eqn:E; [|discriminate].
+                       assert (Hn : nth_error (set_nth (fz_data x) d true) d <> None) by congruence.
+                       apply nth_error_Some in Hn. rewrite set_nth_length in Hn. exact Hn. }
+                     destruct (nth_error (s_data (ss x)) d) as [prev|] eqn:Ep; [|apply nth_error_None in Ep; lia].
+                     exists (sliced width b0). split; [exact (nth_error_set_nth_same _ _ _ _ Ep)|].
+                     intros w' e' c' Hin'.
+                     assert (E : (XData w' d e', c') = (XData width d e, c))
+                       by (eapply (flat_map_nodup_inj dref ns (proj2 (proj2 (Hcan Ho))) _ _ d); eauto; cbn; auto).
+                     inversion E; subst. eapply freeze_data_ok2; eauto. do 5 eexists. exact Ev.
+                 --- rewrite flag_set_other in F1 by exact Hne. exact (J3 d1 F1).
+              ** repeat split; cbn [fz_sym fz_instr fz_data]; auto. intros j Hj. apply flag_set_mono. exact Hj.
+           ++ eexists (with_state x (upd_data (ss x) d (sliced width b0))), _. split; [reflexivity|]. apply npost2_same. apply Write.
+        -- eexists (with_state x (upd_data (ss x) d (sliced width b0))), _. split; [reflexivity|]. apply npost2_same. apply Write.
+      * rewrite orb_false_r.
+        destruct (match v' with VInt b0 => EOk (Some b0) | _ => if last then EErr else EOk None end) as [menc|]; [|reflexivity].
+        match goal with |- context [if negb ?q then _ else _] => destruct q; cbn [negb]; [|reflexivity] end.
+        destruct menc as [b0|].
+        -- rewrite !andb_false_r. cbn [andb]. fold (sliced width b0). fold (upd_data (ss x) d (sliced width b0)).
+           eexists (with_state x (upd_data (ss x) d (sliced width b0))), _. split; [reflexivity|]. apply npost2_same. apply Write.
+        -- exists (with_state x (ss x)), Unresolved. split; [reflexivity|]. apply npost2_same. rewrite with_state_ss. exact HI.
 Qed.
 End Sim2.
